@@ -195,6 +195,13 @@ class C18(Prop):
                 argv.insert(rng.randrange(len(argv) - len(names) + 1), '--no-rimurc')
             yield {'argv': argv, 'files': files, 'stdin': self.content(rng), 'rimurc': rimurc}
 
+    def corpus(self, ctx):
+        # F50: an output file that cannot be written (the file system is a parameter of the model, where writing always succeeds:
+        # implementation only)
+        return [{'argv': ['--no-rimurc', o, 'no-such-dir/out.html'] + extra, 'files': {'a.rmu': 'hi *there*'} if extra else {}, 'stdin': 'hi',
+                 'rimurc': None, 'unwritable': True}
+                for o in ('-o', '--output') for extra in ([], ['a.rmu'])]
+
     def execute(self, case, ctx, res):
         cli = CliImpl(ctx.impl)
         a = cli.run(case['argv'], case['files'], case['stdin'], case['rimurc'])
@@ -203,6 +210,10 @@ class C18(Prop):
         # -- oracle on the implementation ----------------------------------------------------------
         if 'Traceback' in a['stderr']:
             res.violation('rimupy ended in a traceback', case, a['stderr'][-300:])
+            return
+        if case.get('unwritable'):
+            if a['exit'] != 1 or a['stdout'] != '' or a['stderr'].count('\n') != 1 or a['outfile'] is not None:
+                res.violation('an output file that cannot be written must end rimupy with exit status 1 and a one-line message', case, a)
             return
         exp = self.expected(case, ctx, rp)
         if exp is not None:
